@@ -104,6 +104,19 @@ fn expr(e: &Expr) -> R<String> {
                     }
                     format!("(not {} {})", expr(&c.args.pos_args[0].expr)?, w)
                 }
+                Expr::Accessor(Accessor::Ident(id)) if id.vis().is_private() && &id.inspect()[..] == "if" => {
+                    // `if(c, do a, do b)` with both branches given as one-expression lambdas
+                    if c.args.pos_args.len() != 3 || !c.args.kw_args.is_empty() || c.args.var_args.is_some() || c.args.kw_var.is_some() {
+                        return Err("if-args".into());
+                    }
+                    let branch = |e: &Expr| -> R<String> {
+                        match e {
+                            Expr::Lambda(l) if l.body.len() == 1 => expr(l.body.first().unwrap()),
+                            _ => Err("if-branch".into()),
+                        }
+                    };
+                    format!("(ite {} {} {} {})", expr(&c.args.pos_args[0].expr)?, branch(&c.args.pos_args[1].expr)?, branch(&c.args.pos_args[2].expr)?, w)
+                }
                 _ => return Err("call".into()),
             }
         }
@@ -154,7 +167,9 @@ const STORE_NAME: u8 = 90;
 const LOAD_CONST: u8 = 100;
 const LOAD_NAME: u8 = 101;
 const COMPARE_OP: u8 = 107;
+const JUMP_FORWARD: u8 = 110;
 const JUMP_IF_FALSE_OR_POP: u8 = 111;
+const POP_JUMP_FORWARD_IF_FALSE: u8 = 114;
 const JUMP_IF_TRUE_OR_POP: u8 = 112;
 const BINARY_OP: u8 = 122;
 const EXTENDED_ARG: u8 = 144;
@@ -211,6 +226,8 @@ fn decode(c: &CodeObj) -> R<String> {
             }
             JUMP_IF_FALSE_OR_POP => out.push_str(&format!(" (jumpIfFalseOrPop {})", arg)),
             JUMP_IF_TRUE_OR_POP => out.push_str(&format!(" (jumpIfTrueOrPop {})", arg)),
+            POP_JUMP_FORWARD_IF_FALSE => out.push_str(&format!(" (popJumpIfFalse {})", arg)),
+            JUMP_FORWARD => out.push_str(&format!(" (jumpForward {})", arg)),
             BINARY_OP => {
                 let name = match arg { 0 => "add", 10 => "sub", 5 => "mul", 2 => "floordiv", 6 => "mod", _ => return Err(format!("binary-op-arg:{}", arg)) };
                 expect_cache(&mut i, 1)?;
@@ -232,7 +249,7 @@ fn decode(c: &CodeObj) -> R<String> {
             }
             other => return Err(format!("opcode:{}", other)),
         }
-        if was_ext && !matches!(op, JUMP_IF_FALSE_OR_POP | JUMP_IF_TRUE_OR_POP) {
+        if was_ext && !matches!(op, JUMP_IF_FALSE_OR_POP | JUMP_IF_TRUE_OR_POP | POP_JUMP_FORWARD_IF_FALSE | JUMP_FORWARD) {
             return Err("extended-arg-on-non-jump".into());
         }
     }
